@@ -68,7 +68,10 @@ Inductive case :=
 | NexusRead (lowtab : list (text * text)) (st : nx_state) (toks : list tok) (expect : res (list nx_obs))
 (* one CHARACTERS block of a document with several TAXA blocks: `tab` is the reader's namespace table *)
 | NexusReadIn (lowtab : list (text * text)) (tab : ns_table) (st : nx_state) (toks : list tok)
-              (expect : res (list nx_obs)).
+              (expect : res (list nx_obs))
+(* the TITLEs NexusWriter hands out to the blocks of a data set, in the order they are asked for;
+   `esctab` lists escape_nexus_token on the candidate titles (identity elsewhere) *)
+| TitleAssign (esctab : list (text * text)) (labels : list text) (expect : res (list text)).
 
 Definition case_run_text (c : case) : res text :=
   match c with
@@ -107,12 +110,26 @@ Definition case_run_blocks (c : case) : res (list block_result) :=
   | _ => Err OtherErr
   end.
 
+Definition esc_of (tab : list (text * text)) (l : text) : text :=
+  (fix go (t : list (text * text)) : text :=
+     match t with
+     | [] => l
+     | (k, v) :: r => if text_eqb k l then v else go r
+     end) tab.
+
+Definition case_run_titles (c : case) : res (list text) :=
+  match c with
+  | TitleAssign et labels _ => assign_titles (esc_of et) labels []
+  | _ => Err OtherErr
+  end.
+
 Definition case_ok (c : case) : bool :=
   match c with
   | FastaWrite _ _ _ _ e => res_eqb text_eqb (case_run_text c) (Ok e)
   | PhylipWrite _ _ _ e => res_eqb text_eqb (case_run_text c) e
   | FastaRead _ _ _ e | PhylipRead _ _ _ _ e => res_eqb matrix_eqb (case_run_matrix c) e
   | NexusWrite _ _ _ _ _ e => res_eqb toks_eqb (case_run_tokens c) e
+  | TitleAssign _ _ e => res_eqb toks_eqb (case_run_titles c) e
   | NexusRead _ _ _ e | NexusReadIn _ _ _ _ e =>
     match case_run_blocks c, e with
     | Ok brs, Ok os => forall2b nx_obs_eqb brs os
@@ -123,5 +140,5 @@ Definition case_ok (c : case) : bool :=
 
 (* what the model computes, for the replay files *)
 Definition case_show (c : case) :=
-  (case_run_text c, case_run_matrix c, case_run_tokens c,
+  (case_run_text c, case_run_matrix c, case_run_tokens c, case_run_titles c,
    match case_run_blocks c with Ok b => Ok (map obs_of_block b) | Err e => Err e | OutOfFuel => OutOfFuel end).
